@@ -290,6 +290,21 @@ class Runner:
     def op_add(self, op, t0):
         self._store(op, t0, 'add')
 
+    def op_frozen_batch(self, op, t0):
+        """n items stored at one clock reading with one ttl: they share one expire_time."""
+        _, n, ttl, kind = op
+        self.classes.add('frozen-batch')
+        self.clock.time()
+        self.clock.frozen = True
+        try:
+            for j in range(n):
+                key = 5000 + j if j % 2 else 'f%03d' % j
+                spec = ('i', j) if kind == 'i' else ('B', j, self.threshold + 1)
+                t0 = self.clock.peek()
+                self._store(('set', key, spec, ttl, None), t0, 'set')
+        finally:
+            self.clock.frozen = False
+
     def op_bulk_set(self, op, t0):
         _, n, ttl, tag, kind = op
         self.classes.add('bulk')
@@ -426,6 +441,59 @@ class Runner:
                 self.fail('del/exception', 'op %s raised %s for a live key' % (short(op), real[1]))
         else:
             self.expect(op, real, ('exc', 'KeyError'))
+
+    # -- queues --------------------------------------------------------------------------------
+    def op_push(self, op, t0):
+        _, spec, prefix, side, ttl, tag = op
+        value = mkval(spec)
+        filey = is_filey(spec, self.threshold)
+        real = self.call(self.c.push, value, prefix=prefix, side=side, expire=ttl, tag=tag)
+        t1 = self.clock.peek()
+        exp = self.m.push(value, prefix, side, ttl, tag, t0, t1, filey)
+        self.expect(op, real, ('ok', exp))
+        self.reconcile(op, t0, t1, self.cull_limit)
+
+    def _pull(self, op, t0, remove):
+        _, prefix, side, et, tag = op
+        fn = self.c.pull if remove else self.c.peek
+        real = self.call(fn, prefix=prefix, default=(None, DFLT), side=side, expire_time=et, tag=tag)
+        t1 = self.clock.peek()
+        item, removed = self.m.pull(prefix, side, t0, t1, remove=remove)
+        if removed:
+            self.classes.add('expired-head-skipped')
+        if real[0] != 'ok':
+            self.fail(op[0] + '/exception', 'op %s raised %s' % (short(op), real[1]))
+        r = real[1]
+        if item is None:
+            exp = (None, DFLT)
+            if et and tag:
+                exp = ((None, DFLT), None, None)
+            elif et or tag:
+                exp = ((None, DFLT), None)
+            if not same(r, exp):
+                self.fail(op[0] + '/empty-expected', 'op %s: real %s, model queue is empty' % (short(op), short(r)))
+            return
+        parts = r if (et or tag) else (r,)
+        if type(parts[0]) is not tuple or len(parts[0]) != 2:
+            self.fail(op[0] + '/shape', 'op %s: real %s' % (short(op), short(r)))
+        rk, rv = parts[0]
+        if not same(rk, item.key) or not same(rv, item.value):
+            self.fail(
+                op[0] + '/result',
+                'op %s: real %s, model %s' % (short(op), short((rk, rv)), short((item.key, item.value))),
+            )
+        idx = 1
+        if et:
+            self.check_exp(op, parts[idx], item)
+            idx += 1
+        if tag:
+            self.check_tag(op, parts[idx], item)
+
+    def op_pull(self, op, t0):
+        self._pull(op, t0, True)
+
+    def op_peek(self, op, t0):
+        self._pull(op, t0, False)
 
     # -- bulk / views --------------------------------------------------------------------------
     def op_clear(self, op, t0):
